@@ -479,10 +479,14 @@ class FakeConn:
         """socket.makefile: a buffered reader that takes whatever has arrived and
         keeps what it has not handed out in ITS OWN buffer (lost with it)."""
         conn = self
+        # like the real socket: while a file object made from it is alive, close()
+        # of the socket itself is deferred
+        conn._io_refs = getattr(conn, '_io_refs', 0) + 1
 
         class _Reader:
             def __init__(self):
                 self.buf = b''
+                self.closed = False
 
             def readline(self, *a_):
                 while b'\n' not in self.buf:
@@ -504,12 +508,18 @@ class FakeConn:
                 return out if 'b' in mode else out.decode('utf-8')
 
             def close(self):
-                pass
+                if not self.closed:
+                    self.closed = True
+                    conn._io_refs -= 1
+                    if conn._io_refs <= 0 and getattr(conn, '_close_pending', False):
+                        conn._close_pending = False
+                        conn.close()
 
             def __enter__(self):
                 return self
 
             def __exit__(self, *e):
+                self.close()
                 return False
         return _Reader()
 
@@ -556,6 +566,9 @@ class FakeConn:
         return len(data)
 
     def close(self) -> None:
+        if getattr(self, '_io_refs', 0) > 0:
+            self._close_pending = True        # nothing happens on the wire yet
+            return
         self.closed_by_me = True
         self.tx.closed = True
 
